@@ -27,6 +27,9 @@ RULE = ('part 1: {tcp, rtu, ascii} x {single, multi-unit} x ignore_missing x his
         'than one front-end compared / more than one connection; distinct by (configuration, byte history, schedule)')
 
 IDENT_PDUS = [[17], [43, 14, 1, 0], [43, 14, 2, 0], [43, 14, 3, 0], [43, 14, 4, 1], [43, 14, 1, 2], [43, 14, 2, 3], [43, 14, 4, 0x80], [43, 14, 5, 0]]
+# requests whose execute() RAISES (KeyError from the read-code table, AttributeError: unregistered diagnostic sub-functions have
+# no execute): every front-end must turn that into the same exception response — none may take it for a missing unit
+IDENT_PDUS += [[43, 14, 0, 0], [43, 14, 0, 3], [8, 0, 5, 0, 0], [8, 0, 9, 0, 1], [8, 0, 22, 0, 0]]
 GROUP = {'tcp': frontends.FRONTENDS, 'rtu': frontends.FRONTENDS, 'ascii': frontends.STREAM_FRONTENDS, 'binary': ['syncTcp', 'syncSerial']}
 
 
